@@ -134,3 +134,181 @@ def pr_verified_auth(v):
 def verify_auth(policy, cred_value):
     from webauthn import verify_authentication_response as f
     return outcome(lambda: f(credential=cred_value, **policy.kwargs()), pr_verified_auth)
+
+
+# ---------- registration ----------
+import sys, contextlib, datetime
+
+
+class _FakeTime:
+    def __init__(self, now):
+        self._now = now
+
+    def time(self):
+        return float(self._now) + 0.25
+
+    def __getattr__(self, n):
+        import time as _t
+        return getattr(_t, n)
+
+
+@contextlib.contextmanager
+def substituted(builtin, now):
+    """Rebind, in-process and without touching the source, the built-in trust anchors as seen by the format
+    modules, the certificate-store factory (store time = simulated clock) and the clock of the SafetyNet check."""
+    import webauthn.registration.formats.apple as fa
+    import webauthn.registration.formats.android_key as fk
+    import webauthn.registration.formats.android_safetynet as fs
+    vcc = sys.modules["webauthn.helpers.validate_certificate_chain"]
+    vst = sys.modules["webauthn.helpers.verify_safetynet_timestamp"]
+    from OpenSSL.crypto import X509Store
+    saved = []
+
+    def seta(mod, name, val):
+        saved.append((mod, name, getattr(mod, name)))
+        setattr(mod, name, val)
+
+    def store():
+        st = X509Store()
+        st.set_time(datetime.datetime.fromtimestamp(now, datetime.timezone.utc).replace(tzinfo=None))
+        return st
+    try:
+        if builtin is not None:
+            a = builtin.get("apple") or []
+            if a:
+                seta(fa, "apple_webauthn_root_ca", a[0])
+            g = builtin.get("android-key") or []
+            if g:
+                for i in range(1, 5):
+                    seta(fk, f"google_hardware_attestation_root_{i}", g[min(i - 1, len(g) - 1)])
+            sn = builtin.get("android-safetynet") or []
+            if sn:
+                seta(fs, "globalsign_r2", sn[0])
+                seta(fs, "globalsign_root_ca", sn[min(1, len(sn) - 1)])
+        seta(vcc, "_generate_new_cert_store", store)
+        seta(vst, "time", _FakeTime(now))
+        yield
+    finally:
+        for mod, name, val in reversed(saved):
+            setattr(mod, name, val)
+
+
+def real_builtins():
+    from webauthn.helpers import known_root_certs as K
+    return {"apple": [K.apple_webauthn_root_ca],
+            "android-key": [K.google_hardware_attestation_root_1, K.google_hardware_attestation_root_2, K.google_hardware_attestation_root_3, K.google_hardware_attestation_root_4],
+            "android-safetynet": [K.globalsign_r2, K.globalsign_root_ca]}
+
+
+class RegPolicy:
+    def __init__(self, challenge, rp_id, origin, require_up=True, require_uv=False, algs=None, roots=None, builtin=None, now=0):
+        self.challenge, self.rp_id, self.origin = challenge, rp_id, origin
+        self.require_up, self.require_uv, self.algs, self.roots, self.now = require_up, require_uv, algs, roots or {}, now
+        rb = real_builtins()
+        b = builtin or {}
+        # what the format modules will see: substituted anchors where given, the real ones otherwise
+        self.builtin = {f: (list(b.get(f) or []) or rb[f]) for f in rb}
+        self.substitute = {f: (b.get(f) or None) for f in rb}
+
+    def effective_builtin(self, f):
+        v = self.builtin[f]
+        if f == "android-key":
+            return [v[min(i, len(v) - 1)] for i in range(4)]
+        if f == "android-safetynet":
+            return [v[0], v[min(1, len(v) - 1)]]
+        return [v[0]]
+
+    def default_algs(self):
+        import inspect, webauthn
+        return [int(a) for a in inspect.signature(webauthn.verify_registration_response).parameters["supported_pub_key_algs"].default]
+
+    def wire(self):
+        o = ("S " + fw.ws(self.origin)) if isinstance(self.origin, str) else ("M " + wlist(fw.ws, list(self.origin)))
+        algs = self.default_algs() if self.algs is None else [int(a) for a in self.algs]
+        roots = wlist(lambda kv: fw.ws(kv[0]) + " " + wlist(fw.wb, kv[1]), list(self.roots.items()))
+        return " ".join([fw.wb(self.challenge), fw.ws(self.rp_id), o, fw.wbool(self.require_up), fw.wbool(self.require_uv),
+                         wlist(fw.wi, algs), roots, wlist(fw.wb, self.effective_builtin("apple")), wlist(fw.wb, self.effective_builtin("android-key")),
+                         wlist(fw.wb, self.effective_builtin("android-safetynet")), fw.wi(self.now)])
+
+    def kwargs(self):
+        kw = dict(expected_challenge=self.challenge, expected_rp_id=self.rp_id, expected_origin=self.origin,
+                  require_user_presence=self.require_up, require_user_verification=self.require_uv)
+        if self.algs is not None:
+            from webauthn.helpers.cose import COSEAlgorithmIdentifier
+            l = []
+            for a in self.algs:
+                try:
+                    l.append(COSEAlgorithmIdentifier(a))
+                except ValueError:
+                    l.append(a)
+            kw["supported_pub_key_algs"] = l
+        if self.roots:
+            kw["pem_root_certs_bytes_by_fmt"] = {k: list(v) for k, v in self.roots.items()}
+        return kw
+
+    def describe(self):
+        return {"challenge": self.challenge.hex(), "rp_id": self.rp_id, "origin": self.origin, "require_up": self.require_up,
+                "require_uv": self.require_uv, "algs": self.algs, "roots": {k: [hashlib_id(x) for x in v] for k, v in self.roots.items()},
+                "builtin_substituted": {k: (None if v is None else [hashlib_id(x) for x in v]) for k, v in self.substitute.items()}, "now": self.now}
+
+
+def hashlib_id(b):
+    import hashlib
+    return "pem-sha256:" + hashlib.sha256(b).hexdigest()[:16]
+
+
+def reg_cred_wire(form, r):
+    if form == "text":
+        return "T " + fw.ws(r.as_text())
+    if form == "dict":
+        return "D " + json_to_wire(r.as_dict())
+    return " ".join(["R", fw.ws(r.id_text), fw.wb(r.cred_id), fw.ws(r.typ), fw.wb(r.cdj), fw.wb(r.att_obj), "N", "N"])
+
+
+def reg_cred_value(form, r):
+    return r.as_text() if form == "text" else r.as_dict() if form == "dict" else r.as_record()
+
+
+def pr_verified_reg(v):
+    fmt = v.fmt.value if hasattr(v.fmt, "value") else v.fmt
+    return " ".join([fw.wb(v.credential_id), fw.wb(v.credential_public_key), fw.wi(v.sign_count), fw.ws(v.aaguid), fw.wb(fmt.encode()),
+                     pr_enum_or_str(v.credential_type), fw.wbool(v.user_verified), fw.wb(v.attestation_object),
+                     fw.wbool(v.credential_device_type.value == "multi_device"), fw.wbool(v.credential_backed_up)])
+
+
+def verify_reg(policy, cred_value):
+    from webauthn import verify_registration_response as f
+    with substituted(policy.substitute, policy.now):
+        return outcome(lambda: f(credential=cred_value, **policy.kwargs()), pr_verified_reg)
+
+
+# ---------- TPM ----------
+def parse_cert_info(b):
+    from webauthn.helpers.tpm.parse_cert_info import parse_cert_info as f
+
+    def pr(c):
+        ck = c.clock_info
+        return " ".join([fw.wb(c.magic), fw.ws(c.type.name), fw.wb(c.qualified_signer), fw.wb(c.extra_data), fw.wb(ck.clock), fw.wi(ck.reset_count),
+                         fw.wi(ck.restart_count), fw.wbool(ck.safe), fw.wb(c.firmware_version), fw.ws(c.attested.name_alg.name),
+                         fw.wb(c.attested.name_alg_bytes), fw.wb(c.attested.name), fw.wb(c.attested.qualified_name)])
+    return outcome(lambda: f(b), pr)
+
+
+ATTR_NAMES = ["fixed_tpm", "st_clear", "fixed_parent", "sensitive_data_origin", "user_with_auth", "admin_with_policy", "no_da",
+              "encrypted_duplication", "restricted", "decrypt", "sign_or_encrypt"]
+
+
+def parse_pub_area(b):
+    from webauthn.helpers.tpm.parse_pub_area import parse_pub_area as f
+    from webauthn.helpers.tpm.structs import TPMPubAreaParametersRSA
+
+    def pr(p):
+        a = p.object_attributes
+        attrs = "".join("1" if getattr(a, n) else "0" for n in ATTR_NAMES)
+        q = p.parameters
+        if isinstance(q, TPMPubAreaParametersRSA):
+            ps = " ".join(["RSA", fw.ws(q.symmetric.name), fw.ws(q.scheme.name), fw.wb(q.key_bits), fw.wb(q.exponent)])
+        else:
+            ps = " ".join(["ECC", fw.ws(q.symmetric.name), fw.ws(q.scheme.name), fw.ws(q.curve_id.name), fw.ws(q.kdf.name)])
+        return " ".join([fw.ws(p.type.name), fw.ws(p.name_alg.name), attrs, fw.wb(p.auth_policy), ps, fw.wb(p.unique.value)])
+    return outcome(lambda: f(b), pr)
